@@ -3255,3 +3255,91 @@ def t_str_single_pass(facts, res, tier):
                     fn["name"], src[0] if src else it, ("bound to `%s`" % src[2]) if src and src[2] else "not the parameter"))
     if n == 0:
         raise AnchorMissing("compile.rs: the escape decoding loop was not found")
+
+
+@rule("T-OFFSET-SIGN", floor=4,
+      text="in the arm of asm() for an operand at a fixed offset (`ExprType::Absolute(variable, .., off)`) the offset comes from a constant subscript "
+           "of the program and may be negative.  Wherever that arm chooses between the operand text with the offset (`format!(\"{}+{}\", variable, o)`) "
+           "and the bare name, the test is `o != 0`: with `o > 0` the bytes of `arr[-1]` are written at `arr`")
+def t_offset_sign(facts, res, tier):
+    fn = facts.fn("asm", genmodel.GEN_QUAL)
+    n = 0
+    arm = None
+    for m in walk(fn["body"]):
+        if m.get("k") == "match":
+            for a in m["arms"]:
+                if pat_text(a["pat"]).replace(" ", "").startswith("ExprType::Absolute("):
+                    arm = a
+                    break
+        if arm is not None:
+            break
+    if arm is None:
+        raise AnchorMissing("asm(): the arm ExprType::Absolute(..) was not found")
+    # a plain `char` has no subscript: its offset is always 0 and its arm is not judged
+    scalar = [a for m in walk(arm["body"]) if m.get("k") == "match" and expr_text(m["e"]).replace(" ", "").endswith(".var_type") for a in m["arms"]
+              if pat_text(a["pat"]).replace(" ", "") == "VariableType::Char"]
+    skip = {id(y) for a in scalar for y in walk(a["body"])}
+    for x in walk(arm["body"]):
+        if x.get("k") != "if" or x.get("else") is None or id(x) in skip:
+            continue
+        if len(x["then"].get("stmts", [])) != 1 or x["else"].get("k") != "block" or len(x["else"].get("stmts", [])) != 1:
+            continue
+        tt = expr_text(x["then"]).replace(" ", "")
+        et = expr_text(x["else"]).replace(" ", "")
+        mt = re.search(r'dasm_operand=format!\("[^"]*\{\}\+\{\}[^"]*",variable,(\w+)\)', tt)
+        if not mt or "dasm_operand=" not in et or "+{}" in et.split("dasm_operand=")[1][:40]:
+            continue
+        o = mt.group(1)
+        c = expr_text(x["cond"]).replace(" ", "").strip("()")
+        n += 1
+        key = "T-OFFSET-SIGN:asm:%s" % c
+        res.inst(key, True, {"offset": o, "test": c, "where": facts.where(fn, x)})
+        if c not in ("%s!=0" % o, "0!=%s" % o):
+            res.fail(key, facts.where(fn, x), "asm() writes the offset `%s` of a fixed-offset operand only when `%s`: a negative constant subscript loses its offset and names the first element" % (o, c))
+    if n == 0:
+        raise AnchorMissing("asm(): no choice between `name+offset` and `name` found in the Absolute arm")
+
+
+@rule("T-INCDEC-WIDE", floor=3,
+      text="an element of a table of 16-bit values (`short t[]`, `char *p[]`: ShortPtr, CharPtrPtr) is reached at a fixed offset (`t[1]`), through X "
+           "or through Y.  In each of the three arms of generate_plusplus that receive such an element (Absolute, AbsoluteX, AbsoluteY) a step on the "
+           "high byte exists (`asm(.., true)` / `generate_assign(.., true)`) under a condition that names both types.  `t[1]++` and `t[Y]++` otherwise "
+           "step the low byte only while `t[X]++` and `t[1] += 1` carry")
+def t_incdec_wide(facts, res, tier):
+    from scopes import scoped
+    fn = facts.fn("generate_plusplus", genmodel.GEN_QUAL)
+    m = next((x for x in walk(fn["body"]) if x.get("k") == "match" and expr_text(x["e"]).replace(" ", "").lstrip("*&") == "expr_type"), None)
+    if m is None:
+        raise AnchorMissing("generate_plusplus: the match on the operand was not found")
+    info = {}
+    for node, env, doms in scoped(fn):
+        info[id(node)] = (env, doms)
+    n = 0
+    for want in ("Absolute", "AbsoluteX", "AbsoluteY"):
+        arm = next((a for a in m["arms"] if pat_text(a["pat"]).replace(" ", "").startswith("ExprType::%s(" % want)), None)
+        if arm is None:
+            raise AnchorMissing("generate_plusplus: no arm for ExprType::%s" % want)
+        n += 1
+        types = set()
+        steps = 0
+        for x in walk(arm["body"]):
+            if _self_call(x, ("asm", "generate_assign", "generate_arithm")) and x.get("args") and x["args"][-1].get("k") == "lit" and x["args"][-1].get("v") is True:
+                steps += 1
+                env, doms = info.get(id(x), ({}, []))
+                texts = []
+                for d in doms:
+                    if d[0] == "cond":
+                        texts.append(expr_text(d[1]))
+                        for y in walk(d[1]):
+                            if y.get("k") == "path" and len(y["segs"]) == 1:
+                                b = env.get(y["segs"][0])
+                                if b is not None and b.init is not None:
+                                    texts.append(expr_text(b.init))
+                for t in texts:
+                    types |= set(re.findall(r"VariableType::(\w+)", t))
+        key = "T-INCDEC-WIDE:generate_plusplus:%s" % want
+        res.inst(key, True, {"arm": want, "high_byte_steps": steps, "types_named_by_their_conditions": sorted(types)})
+        missing = {"ShortPtr", "CharPtrPtr"} - types
+        if missing:
+            res.fail(key, facts.where(fn, arm["body"]), "generate_plusplus, arm %s: no step on the high byte is taken for %s (%s): `t[..]++` on a table of 16-bit values steps the low byte only through this arm" % (
+                want, " / ".join(sorted(missing)), "%d high byte step(s), conditions name %s" % (steps, sorted(types)) if steps else "the arm has no high byte step at all"))
